@@ -221,7 +221,7 @@ def interp_configs(ctx):
     kinds = ['uniform', 'pow2', 'dyadic', 'decimal']
     num_dt = ['float64', 'float32', 'complex128', 'complex64']
     near_dt = num_dt + ['int64', 'int32', 'U1', 'U3']
-    reps = 1 if quick else 4
+    reps = 2 if quick else 10
     for rep in range(reps):
         for d in (1, 2, 3):
             # per-axis interpolator: every scheme combination x a rotating coordinate kind / dtype
@@ -499,6 +499,15 @@ def mesh_input_ok(lens):
     return not (len(lens) > 1 and lens[0] == 1 and any(n != 1 for n in lens[1:]))
 
 
+def limited_violation(ctx, cls, key, what, rc, limit=3):
+    """violations of an already classified input class: reported at most `limit` times per run
+    (the list in core is capped; a flood of one class must not hide another)"""
+    seen = ctx.extra.setdefault('classified_violation_counts', {})
+    seen[cls] = seen.get(cls, 0) + 1
+    if seen[cls] <= limit:
+        ctx.violation(key, what, rc)
+
+
 def desc_of(case):
     return {k: v for k, v in case.items()}
 
@@ -559,9 +568,11 @@ def check_interp_case(ctx, case, results, model_out):
                     'could not broadcast input array' in status:
                 what = ('conv={} mesh grid with one point on the first axis and several on another '
                         'raised {}'.format(conv, exc))
+                limited_violation(ctx, 'mesh-input', key_of(case, what),
+                                  status + ' mesh lengths {}'.format(lens), rc)
             else:
                 what = 'conv={} raised {}'.format(conv, exc)
-            ctx.violation(key_of(case, what), status + ' mesh lengths {}'.format(lens), rc)
+                ctx.violation(key_of(case, what), status + ' mesh lengths {}'.format(lens), rc)
             ctx.err(exc)
         else:
             # --- oracle
@@ -617,9 +628,15 @@ def check_interp_case(ctx, case, results, model_out):
     if len(oks) > 1:
         names = sorted(oks)
         base = oks[names[0]]
+        def same_tok(a, b):
+            if a == b:
+                return True
+            if numeric and tol > 0 and 'nonfinite' not in (a, b):
+                return close(parse_c(a), parse_c(b), tol)
+            return False
         for other in names[1:]:
-            if oks[other] != base:
-                k = [i for i, (a, b) in enumerate(zip(base, oks[other])) if a != b]
+            if len(oks[other]) != len(base) or not all(same_tok(a, b) for a, b in zip(base, oks[other])):
+                k = [i for i, (a, b) in enumerate(zip(base, oks[other])) if not same_tok(a, b)]
                 k = k[0] if k else -1
                 ctx.violation(key_of(case, 'calling conventions {} vs {} differ'.format(names[0], other)),
                               'point {}: {} gives {}, {} gives {}'.format(
@@ -756,7 +773,7 @@ def op_configs(ctx):
     rng = ctx.rng
     out = []
     num_dt = ['float64', 'float32', 'complex128', 'complex64']
-    reps = 1 if ctx.quick else 4
+    reps = 1 if ctx.quick else 8
     for rep in range(reps):
         for d in (1, 2, 3):
             schs = [''.join(t) for t in itertools.product('ln', repeat=d)]
@@ -890,9 +907,10 @@ def run_ops(ctx, cases, with_model=True):
     for case, results, conv, k in batch:
         check_interp_case(ctx, case, results, {conv: [outs[k]]} if outs else {})
         if case.get('inplace_protocol'):
-            ctx.violation('Resampling(domain, range, interp)(x, out=y) :: in-place call protocol, '
-                          'Resampling._call returns the raw array',
-                          'raised ValueError: ' + case['inplace_protocol'], desc_of(case))
+            limited_violation(ctx, 'resampling-inplace',
+                              'Resampling(domain, range, interp)(x, out=y) :: in-place call protocol, '
+                              'Resampling._call returns the raw array',
+                              'raised ValueError: ' + case['inplace_protocol'], desc_of(case))
 
 
 # ---------------------------------------------------------------------------
@@ -1090,7 +1108,7 @@ def samp_configs(ctx):
     rng = ctx.rng
     out = []
     dts = ['float64', 'float32', 'complex128', 'complex64']
-    reps = 1 if ctx.quick else 3
+    reps = 1 if ctx.quick else 8
     for rep in range(reps):
         for d in (1, 2, 3):
             for ki, ck in enumerate(CALL_KINDS):
@@ -1189,6 +1207,19 @@ def run_sampling_case(ctx, case):
             out = garbage((len(pts),))
             sf(allpts, out=out, **kwargs)
             return out
+        if conv == 'direct-array':       # the decorated function itself, (d, N) points
+            return func(allpts)
+        if conv == 'direct-array+out':
+            out = garbage((len(pts),))
+            func(allpts, out=out)
+            return out
+        if conv == 'direct-mesh':
+            return func(space.meshgrid)
+        if conv == 'direct-flat1d':      # 1d: a flat array of N points
+            return func(allpts[0])
+        if conv == 'direct-point':
+            vals = [func(float(pt[0]) if len(pt) == 1 else [float(t) for t in pt]) for pt in pts[:12]]
+            return np.array([np.asarray(v).reshape(()) for v in vals], dtype=dt)
         if conv == 'point':
             vals = []
             for pt in pts[:12]:
@@ -1200,7 +1231,12 @@ def run_sampling_case(ctx, case):
             return np.array(vals, dtype=dt)
         raise KeyError(conv)
 
-    for conv in INPUT_CONVS:
+    convs = list(INPUT_CONVS)
+    if case['ck'].startswith('vec'):
+        convs += ['direct-array', 'direct-array+out', 'direct-mesh', 'direct-point']
+        if len(cv) == 1:
+            convs += ['direct-flat1d']
+    for conv in convs:
         if conv.startswith('array') and len(pts) == 1 and len(cv) == 1:
             continue  # a (1,)-array in 1d is a single point by the documented input rules
         try:
@@ -1209,7 +1245,7 @@ def run_sampling_case(ctx, case):
                 r = run_conv(conv)
             status = 'ok'
             toks = flat_tokens(r, dt)
-            if str(np.asarray(r).dtype) != dt:
+            if str(np.asarray(r).dtype) != dt and not (conv.startswith('direct') and case['ck'] == 'vec_noot'):
                 status = 'err:dtype:result dtype {} instead of {}'.format(np.asarray(r).dtype, dt)
         except Exception as e:  # noqa
             status, toks = 'err:{}:{}'.format(type(e).__name__, str(e)[:120]), None
@@ -1218,11 +1254,15 @@ def run_sampling_case(ctx, case):
                  {'case': {k: case[k] for k in ('ck', 'poly', 'space')}, 'conv': conv, 'impl': toks}
                  if len(ctx.samples) < 10 and len(pts) <= 6 and nontrivial else None)
         ctx.hit('sampling/{}/{}'.format(case['ck'], conv))
-        want = exp_tok[:12] if conv == 'point' else exp_tok
+        want = exp_tok[:12] if conv in ('point', 'direct-point') else exp_tok
         key = 'sampling ck={} usage={} d={} dtype={} grid={} :: input={}'.format(
             case['ck'], case['usage'], case['d'], dt, case['space']['kind'], conv)
         if status != 'ok':
-            ctx.violation(key + ' raised', status, dict(case, conv=conv))
+            if case['d'] == 1 and case['ck'] in ('dual_kw', 'ufunc1d') and conv.endswith('+out'):
+                limited_violation(ctx, 'sampling-1d-inplace-' + case['ck'], key + ' raised', status,
+                                  dict(case, conv=conv))
+            else:
+                ctx.violation(key + ' raised', status, dict(case, conv=conv))
             ctx.err(status.split(':')[1])
         elif toks != want:
             k = [i for i, (a, b) in enumerate(zip(toks, want)) if a != b]
@@ -1283,11 +1323,21 @@ def run_sampling(ctx):
 
 # ---------------------------------------------------------------------------
 
+MODEL_BRANCHES = ['axis/{}/{}'.format(s_, b) for s_ in 'ln' for b in ('lo', 'hi', 'node', 'tie', 'in<', 'in>')] + \
+    ['conv/{}/{}'.format(a, c) for a in ('nearest', 'linear', 'peraxis') for c in ('point', 'array', 'mesh')] + \
+    ['conv/resampling/mesh', 'conv/deform/array', 'mesh-input/rejected'] + \
+    ['dtype/' + vk for vk in sorted(set(v for _, v in VKINDS))]
+
+
 def run(ctx):
     run_interp(ctx, interp_configs(ctx))
     run_ops(ctx, op_configs(ctx))
     run_dtype_table(ctx)
     run_sampling(ctx)
+    unhit = [b for b in MODEL_BRANCHES if not ctx.branches.get(b)]
+    ctx.extra['unhit_model_branches'] = unhit
+    if unhit:
+        ctx.notes.append('model branches not exercised in this run: {}'.format(unhit))
 
 
 def search(ctx, broken):
